@@ -6,6 +6,7 @@ package main
 //              1-6 groups) or through the public API on CountingWindow(N) (mode p: one group);
 //   C07 S ...  stream.NewSorter(keys).Sort(rows) directly, incl. missing keys and mixed column types;
 //   C07 V ...  compareOrderValues on a pair of values.
+// Family T (c07c.go) writes Q lines with mode t: DISTINCT over groups whose keys differ only in their Go type.
 // Numbers travel as exact rationals of the float64/int the engine delivered.
 
 import (
@@ -585,6 +586,11 @@ func c7val(v any) string {
 		return fmt.Sprintf("q%d_1", x)
 	case int64:
 		return fmt.Sprintf("q%d_1", x)
+	case bool:
+		if x {
+			return "b1"
+		}
+		return "b0"
 	case string:
 		if x == "" {
 			return "s-"
@@ -1007,5 +1013,7 @@ func runC07(tier string, seed uint64, o *Out) error {
 		}
 	}
 	o.Count("compare_pairs_exhaustive_pool")
-	return nil
+	// (5) family T: DISTINCT over result rows that differ only in the Go type of a value (c07c.go); last, so
+	// that the case streams of the other families stay what they were
+	return c7runTwinFamily(rng, tier, o)
 }
